@@ -25,6 +25,7 @@ RULE = (
     "Non-trivial = the reference trie had a node whose RLP is 31..33 bytes or an "
     "embedded node, AND some delete reduced the number of branch nodes (structural "
     "merge). Distinct = canonical JSON of the case."
+    ' Added after the seeded rounds: sparse-lookup mode, probe fragments, re-pointing the same object at an earlier root, twin fragments (identical sibling leaves), edge-leaf fragments (31-33 byte leaves made by long keys and 1-3 byte values >= 0x80), 16-way fans, HexBytes arguments, hash-like values.'
 )
 LEVEL_TEXT = (
     "Exploration by differential property testing against a from-scratch reference "
